@@ -456,6 +456,22 @@ def pstep (kind : Kind) (h : Nat → Nat) (s : PState) (op : Op) : Option (PStat
     match PTable.equal kind (s.get t) (s.get u) with
     | some b => some (s, .flag b)
     | none => none
+  | .notEqual t u =>
+    match PTable.equal kind (s.get t) (s.get u) with
+    | some b => some (s, .flag (!b))
+    | none => none
+  | .iterBack t =>
+    -- `for(it = end(); it != begin();) { --it; … }`: along `prev` from `endItem.prev` until null
+    match (s.get t).orderBack with
+    | some l => some (s, .entries (l.map (fun id => (((s.get t).items id).key, ((s.get t).items id).value))))
+    | none => none
+  | .entryAt t pos =>
+    match (s.get t).order with
+    | none => none
+    | some l =>
+      match l[pos]? with
+      | some id => some (s, .entries [(((s.get t).items id).key, ((s.get t).items id).value)])
+      | none => none
 
 def prun (kind : Kind) (h : Nat → Nat) : PState → List Op → Option (PState × List Out)
   | s, [] => some (s, [])
